@@ -647,16 +647,17 @@ pub fn check_c20(case: &C20Case) -> Result<CaseInfo, Failure> {
     let src_variants: Vec<(RecordVariantId, Vec<DatumId>)> =
         def.variants().map(|v| (v.id(), v.data().collect())).collect();
 
-    // (a) native target
-    {
+    // (a) native targets: over the host resolver, and over an empty type table (copying a datum needs no resolver)
+    macro_rules! native_target {
+        ($resolver_ty:ty, $resolver:expr, $label:expr) => {{
         struct Ctx<'a> {
-            b: NativeRecordDefinitionBuilder<&'a HostTypeResolver>,
+            b: NativeRecordDefinitionBuilder<&'a $resolver_ty>,
             strats: &'a [Strat],
             closes: usize,
         }
-        static HOST: HostTypeResolver = HostTypeResolver;
+        let resolver: $resolver_ty = $resolver;
         let mut ctx = Ctx {
-            b: NativeRecordDefinitionBuilder::new(&HOST),
+            b: NativeRecordDefinitionBuilder::new(&resolver),
             strats: &case.target_strats,
             closes: 0,
         };
@@ -674,8 +675,8 @@ pub fn check_c20(case: &C20Case) -> Result<CaseInfo, Failure> {
             )
         }));
         let map = match res {
-            Err(e) => return Err(Failure::new("convert-panicked", format!("native target: {}", panic_message(e)))),
-            Ok(Err(e)) => return Err(Failure::new("convert-failed", format!("native target: {}", e))),
+            Err(e) => return Err(Failure::new("convert-panicked", format!("{}: {}", $label, panic_message(e)))),
+            Ok(Err(e)) => return Err(Failure::new("convert-failed", format!("{}: {}", $label, e))),
             Ok(Ok(m)) => m,
         };
         let target = catch_unwind(AssertUnwindSafe(|| ctx.b.build()))
@@ -683,7 +684,7 @@ pub fn check_c20(case: &C20Case) -> Result<CaseInfo, Failure> {
         let tgt_variants: Vec<(RecordVariantId, Vec<DatumId>)> =
             target.variants().map(|v| (v.id(), v.data().collect())).collect();
         check_mapping(
-            "native target",
+            $label,
             &src_variants,
             &tgt_variants,
             &map,
@@ -696,7 +697,10 @@ pub fn check_c20(case: &C20Case) -> Result<CaseInfo, Failure> {
                 key_of(x.name(), x.details().type_info(), x.details().allow_uninit())
             },
         )?;
+    }};
     }
+    native_target!(HostTypeResolver, HostTypeResolver, "native target");
+    native_target!(truc::record::type_resolver::StaticTypeResolver, truc::record::type_resolver::StaticTypeResolver::new(), "native target over an empty type table");
     // (b) generic target carrying the type information as details
     {
         struct Ctx<'a> {
